@@ -28,6 +28,18 @@ def load_eliminated():
         return tomllib.load(f).get("eliminated", [])
 
 
+def rewriting_passes():
+    """scope of the rewrite-completeness rule: every eliminating pass plus the passes that remove a literal form"""
+    p = os.path.join(HERE, "tables", "eliminated.toml")
+    with open(p, "rb") as f:
+        d = tomllib.load(f)
+    out = []
+    for e in d.get("eliminated", []) + d.get("traversal", []):
+        if e["by"] not in out:
+            out.append(e["by"])
+    return out
+
+
 def arm_variants_of_block(cov, block):
     """variants of the primary switch of `cov` whose arm region contains `block` (None if the block is reachable
     from every arm, i.e. it is common code)"""
